@@ -93,6 +93,7 @@ fn main() {
         "C12.list" => c12::record("list", seed, n, &mut out),
         "C12.cred" => c12::record("cred", seed, n, &mut out),
         "C13" => c13::record(seed, n, &mut out),
+        "LIFE" => life::record(seed, n, &mut out),
         "C15.seq" => c15::record_seq(seed, n, &mut out),
         "C15.race" => c15::record_race(seed, n, &mut out),
         "C19.OrderedSet" => c19::record_ordered_set(seed, n, &mut out),
